@@ -634,6 +634,121 @@ func c10Gen(c *Ctx) {
 		h2 := []int64{2, 1, 1<<32 - 1, 0, 1, 0, 2, 0, 3, 3, 0, 5, 0}
 		honest = append(honest, append(h2, c10Final(1, 3)...))
 	}
+	// ---------------- large rings (buffers around and above 32 KiB / 64 KiB of ints): New(c) with c in 4000..9000 and just
+	// below / at / above 4096 and 8192, filled, partly drained and refilled so that head/tail are anywhere (wrapped: head >
+	// tail, or not), then Recap by a small growth (fewer slots than the front part holds, exactly that many, one more), a
+	// large growth, to exactly Len, a shrink, a refused shrink; a few more pushes; then drained completely.  Plain single-step
+	// operations of the proved model (cases of 20-50 k integers: not in the kernel sample, not shrunk).
+	c.Each(c.N(32, 800), func(i int, t *T) {
+		r := t.R
+		var c0 int64
+		switch i % 4 {
+		case 0:
+			c0 = 4000 + r.Int63n(5001)
+		case 1:
+			c0 = 4096 + int64(r.Intn(9)) - 4
+		case 2:
+			c0 = 8192 + int64(r.Intn(9)) - 4
+		default:
+			c0 = 4097 + r.Int63n(3000)
+		}
+		in := []int64{0, c0, -1}
+		next := int64(1)
+		push := func(n int64) {
+			for ; n > 0; n-- {
+				in = append(in, 0, next)
+				next++
+			}
+		}
+		// seven in eight: the ring is ROTATED with few elements in it (one element, then Push/Pop pairs move head and tail
+		// to the chosen slot; the specification's queue stays short, so the case is cheap), then a run of 2..600 elements
+		// is pushed across the end of the buffer.  One in eight (only up to 4500 slots): the ring is full of content.
+		var n1, p, q int64
+		if i%8 != 3 {
+			q = 2 + r.Int63n(599)
+			p = c0 - 1 - r.Int63n(q+40) // old head slot: the run of q elements usually passes the end of the buffer
+			if r.Intn(6) == 0 {
+				p = r.Int63n(c0)
+			}
+			if p < 0 {
+				p = 0
+			}
+			n1 = p + 1
+			push(1)
+			for j := int64(0); j < p; j++ {
+				in = append(in, 0, next, 1, 0)
+				next++
+			}
+			q--
+			if q > c0-1 {
+				q = c0 - 1
+			}
+			push(q)
+		} else {
+			if c0 > 4500 {
+				c0 = 4096 + r.Int63n(400)
+				in[1] = c0
+			}
+			n1 = c0 - int64(r.Intn(3))
+			push(n1)
+			p = r.Int63n(n1 + 1)
+			for j := int64(0); j < p; j++ {
+				in = append(in, 1, 0)
+			}
+			if i%8 != 7 && p > 0 {
+				q = (c0 - n1) + 1 + r.Int63n(p)
+				if q > p+(c0-n1) {
+					q = p + (c0 - n1)
+				}
+			}
+			push(q)
+		}
+		length := n1 - p + q
+		front := n1 + q - c0 // number of elements at the front of the buffer when wrapped (tail+1)
+		wrapped := front > 0 && p > 0
+		if front < 0 {
+			front = 0
+		}
+		var nc int64
+		switch r.Intn(10) {
+		case 0:
+			nc = c0 + 1 + int64(r.Intn(40))
+		case 1, 2:
+			nc = c0 + front + int64(r.Intn(5)) - 2
+		case 3:
+			nc = c0 + 1 + r.Int63n(front+2+c0/4)
+		case 4:
+			nc = 2 * c0
+		case 5:
+			nc = length
+		case 6:
+			nc = length + 1 + int64(r.Intn(60))
+		case 7:
+			nc = length - 1 - int64(r.Intn(3))
+		case 8:
+			nc = c0 + front/2
+		default:
+			nc = 4000 + r.Int63n(9000)
+		}
+		if nc < 1 {
+			nc = 1
+		}
+		in = append(in, 3, 0, 7, nc, 6, 0, 3, 0, 5, 0, 2, 0)
+		extra := int64(r.Intn(4))
+		push(extra)
+		if r.Intn(3) == 0 { // a second Recap on the new layout
+			in = append(in, 7, nc+1+int64(r.Intn(3000)), 6, 0)
+		}
+		for j := int64(0); j < length+extra+2; j++ {
+			in = append(in, 1, 0)
+		}
+		in = append(in, 3, 0, 4, 0, 0, next, 1, 0, 4, 0)
+		fam := "ring-large-unwrapped"
+		if wrapped {
+			fam = "ring-large-wrapped"
+		}
+		t.Try(fam, in, true)
+	})
 	honestWG.Wait()
 	c.Each(len(honest), func(i int, t *T) { t.Try("sync-honest-pairs", honest[i], true) })
 }
@@ -703,5 +818,5 @@ func init() {
 		// a requested capacity above 2^24: a wrong rounding can ask the runtime for 2^36 bytes, which kills the process
 		Isolate: func(in []int64) bool { return len(in) >= 2 && in[1] > 1<<24 },
 		Shrink:  ShrinkOps(3, 2), Known: c10Known, Describe: c10Describe,
-		Rule: "exhaustive: Ring caps 1..5 x every sequence of mutators (Push, Pop, PushWithExpand, Recap(0,1,2,3,4,6), Init(2)) up to the tier's length with all observers after every step; SyncRing requested caps 1..9 x {fresh, counters injected at 2^32-1, 2^32-2, 2^32-cap, 2^32-cap-1, 2^33-3} x every Push/Pop sequence up to the tier's length; wrap window: counters at 2^32*m-k (and at 2^31-k, 2^16-k, 2^15-k, 2^8-k, 2^24-k, 2^30-k above a multiple of 2^32) then 2k+cap random operations; random long sequences (Ring with Recap/PushWithExpand/Init at random rotations, SyncRing with random injected counters); capacity rounding for 2^j-1, 2^j, 2^j+1 (j <= 13) with operations, capacity alone for requests up to 2^26 (2^j +- small, 2^j+2^i, random; rings of empty structs), and requests > 2^31 (known finding F11); honest push/pop pairs against the closed form. distinct = distinct case; non-trivial = at least 3 mutating steps of at least 2 kinds (exhaustive), at least 2-3 operation kinds (random)"})
+		Rule: "exhaustive: Ring caps 1..5 x every sequence of mutators (Push, Pop, PushWithExpand, Recap(0,1,2,3,4,6), Init(2)) up to the tier's length with all observers after every step; SyncRing requested caps 1..9 x {fresh, counters injected at 2^32-1, 2^32-2, 2^32-cap, 2^32-cap-1, 2^33-3} x every Push/Pop sequence up to the tier's length; wrap window: counters at 2^32*m-k (and at 2^31-k, 2^16-k, 2^15-k, 2^8-k, 2^24-k, 2^30-k above a multiple of 2^32) then 2k+cap random operations; random long sequences (Ring with Recap/PushWithExpand/Init at random rotations, SyncRing with random injected counters); capacity rounding for 2^j-1, 2^j, 2^j+1 (j <= 13) with operations, capacity alone for requests up to 2^26 (2^j +- small, 2^j+2^i, random; rings of empty structs), and requests > 2^31 (known finding F11); honest push/pop pairs against the closed form; large rings (New(4000..9000), around 4096 and 8192 slots) filled, rotated (wrapped and not), Recap by small / exact / large growth and shrink, drained. distinct = distinct case; non-trivial = at least 3 mutating steps of at least 2 kinds (exhaustive), at least 2-3 operation kinds (random)"})
 }
